@@ -128,6 +128,8 @@ def run_dm1(case):
         ncycles = rng.randint(3, 6)
     sent = []
     keys = ['pl', 'awl', 'rsl', 'mil']
+    stop_inside = (not overrun) and random.Random(case['seed'] ^ 0x570).random() < 0.25
+    stopped = {}
 
     def cb():
         k = len(sent)
@@ -144,14 +146,25 @@ def run_dm1(case):
         exp_l = {key: v for key, v in zip(keys, lamps_in)}
         exp_d = [dict(spn=x['spn'], fmi=x['fmi'], oc=x.get('oc', 0)) for x in dtcs]
         sent.append((sim.now, exp_l, exp_d))
+        if stop_inside and len(sent) == ncycles and 'cycles' not in stopped:
+            # the application stops the cycle from inside its own data callback (the DM1 of this cycle may still go out, nothing after it)
+            try:
+                dm1.stop_send(cb)
+                stopped['exc'] = None
+            except Exception as e:
+                stopped['exc'] = repr(e)
+            stopped['t'] = sim.now
+            stopped['cycles'] = len(sent)
+            stopped['inside'] = True
         return dict(lamps), [dict(x) for x in dtcs]
     dm1 = j.Dm1(sca)
     t0 = 0.02
     sim.at(t0, dm1.start_send, cb, cycle)
     t_stop = t0 + cycle * ncycles + cycle * 0.5
-    stopped = {}
 
     def stop():
+        if 'cycles' in stopped:
+            return
         rec = W.call('stop_send', dm1.stop_send, cb)
         stopped['t'] = sim.now
         stopped['exc'] = rec['exc']
@@ -181,7 +194,7 @@ def run_dm1(case):
         t_end = t_stop2 + 3 * cycle2 + dur + 0.05
         restart.update(cycle=cycle2, n=n2c)
     W.run(t_end)
-    obs = dict(dm1_cycles_compared=0, dtcs_compared=0, stop_observed=0, overrun_cases=0, dm22_frames=0, dtc_codec_values=0, lamp_combinations_max=len(set(tuple(x) for x in case['lamps'])))
+    obs = dict(stopped_inside_callback=0, dm1_cycles_compared=0, dtcs_compared=0, stop_observed=0, overrun_cases=0, dm22_frames=0, dtc_codec_values=0, lamp_combinations_max=len(set(tuple(x) for x in case['lamps'])))
     M.m_live(viol, W, layer)
     if stopped.get('exc'):
         viol.add('stop_raised', 'stop_send raised %s' % stopped['exc'], **tag)
@@ -202,6 +215,7 @@ def run_dm1(case):
         viol.add('dm1_after_stop', 'the DM1 callback ran %d more time(s) after stop_send returned at %.3f (cycle %.3f s)' % (len(sent) - n_at_stop, stopped.get('t', -1), cycle), **tag)
     else:
         obs['stop_observed'] += 1
+    obs['stopped_inside_callback'] = 1 if stopped.get('inside') else 0
     if n_at_stop not in (ncycles, ncycles + 1):          # the first DM1 may go out at start_send or one cycle later
         viol.add('dm1_cycle_count', '%d DM1 cycles ran in %d cycle times before stop_send' % (n_at_stop, ncycles), **tag)
     # 2. subscribers got every cycle exactly, in order
@@ -231,7 +245,9 @@ def run_dm1(case):
             if sent and not rec:
                 viol.add('dm1_delivery_count', 'overrun: subscriber %d got no DM1 at all for %d cycles' % (i, len(sent)), how='missing', **tag)
             continue
-        if len(rec) != len(sent):
+        if stopped.get('inside') and not restart and len(rec) == len(sent) - 1:
+            pass          # the DM1 of the cycle whose callback called stop_send was not sent any more: also fine
+        elif len(rec) != len(sent):
             viol.add('dm1_delivery_count', 'subscriber %d got %d DM1 notifications for %d cycles (ndtc %d)' % (i, len(rec), len(sent), nd),
                      how='missing' if len(rec) < len(sent) else 'extra', **tag)
         for k, (r, s) in enumerate(zip(rec, sent)):
@@ -274,6 +290,8 @@ def run_dm1(case):
                 break
             idx = k + 1
         wire = []
+    elif stopped.get('inside') and not restart and len(wire) == len(sent) - 1:
+        pass
     elif len(wire) != len(sent):
         viol.add('dm1_wire_count', '%d DM1 messages on the bus for %d cycles' % (len(wire), len(sent)), **tag)
     for k, ((t, payload), s) in enumerate(zip(wire, sent)):
